@@ -682,3 +682,88 @@ mutant('V1-vanished-writer-arm-dropped', ['C01'], [
 mutant('L4-abort-flag-cached-outside-commit-loop', ['C05'], [
     (S, "        let mut commit_idx = 0;\n        while !self.is_aborted() && commit_idx < self.block_size {", "        let mut commit_idx = 0;\n        let aborted = self.is_aborted();\n        while !aborted && commit_idx < self.block_size {"),
 ], ['|L4|'])
+
+benign('B-helper-extracted-from-validate-conflict-tail', ['C02', 'C07'], [
+    (S, """        if conflict {
+            self.metrics.record_version_conflict();
+            // Readers must not validate against writes produced by an invalid incarnation.
+            self.mark_mv_estimate(txid, &result.write_set);
+            if !beneficiary.invalidate(&tx_version) {
+                self.abort(AbortReason::ParallelError {
+                    txid,
+                    message: "stale beneficiary history validation",
+                });
+                return None;
+            }
+        }
+""", """        if conflict && !self.invalidate_incarnation(beneficiary, &tx_version, &result.write_set) {
+            return None;
+        }
+"""),
+    (S, """    fn latest_unfinalized_blocker(&self, blockers: &HashSet<TxId>) -> Option<TxId> {""", """    fn invalidate_incarnation(
+        &self,
+        beneficiary: &Beneficiary,
+        tx_version: &TxVersion,
+        write_set: &HashSet<LocationAndType>,
+    ) -> bool {
+        self.metrics.record_version_conflict();
+        // Readers must not validate against writes produced by an invalid incarnation.
+        self.mark_mv_estimate(tx_version.txid, write_set);
+        if !beneficiary.invalidate(tx_version) {
+            self.abort(AbortReason::ParallelError {
+                txid: tx_version.txid,
+                message: "stale beneficiary history validation",
+            });
+            return false;
+        }
+        true
+    }
+
+    fn latest_unfinalized_blocker(&self, blockers: &HashSet<TxId>) -> Option<TxId> {"""),
+])
+benign('B-helper-extracted-stale-write-removal', ['C02', 'C01'], [
+    (S, """                    for location in &last_result.write_set {
+                        if !write_set.contains(location) &&
+                            let Some(mut written_transactions) = self.mv_memory.get_mut(location)
+                        {
+                            written_transactions.remove(&txid);
+                        }
+                    }
+""", """                    self.remove_stale_writes(txid, &last_result.write_set, &write_set);
+"""),
+    (S, """    fn latest_unfinalized_blocker(&self, blockers: &HashSet<TxId>) -> Option<TxId> {""", """    fn remove_stale_writes(
+        &self,
+        txid: TxId,
+        previous: &HashSet<LocationAndType>,
+        current: &HashSet<LocationAndType>,
+    ) {
+        for location in previous {
+            if !current.contains(location) &&
+                let Some(mut written_transactions) = self.mv_memory.get_mut(location)
+            {
+                written_transactions.remove(&txid);
+            }
+        }
+    }
+
+    fn latest_unfinalized_blocker(&self, blockers: &HashSet<TxId>) -> Option<TxId> {"""),
+])
+benign('B-helper-extracted-publish-committed', ['C02', 'C16', 'C05'], [
+    (S, """                        self.scheduler_ctx.publish_commit(next_commit_idx);
+                        // Publish committed state before releasing work that may require it.
+                        self.tx_dependency.commit(commit_idx);
+""", """                        self.publish_committed(commit_idx, next_commit_idx);
+"""),
+    (S, """    fn latest_unfinalized_blocker(&self, blockers: &HashSet<TxId>) -> Option<TxId> {""", """    fn publish_committed(&self, commit_idx: TxId, next_commit_idx: TxId) {
+        self.scheduler_ctx.publish_commit(next_commit_idx);
+        // Publish committed state before releasing work that may require it.
+        self.tx_dependency.commit(commit_idx);
+    }
+
+    fn latest_unfinalized_blocker(&self, blockers: &HashSet<TxId>) -> Option<TxId> {"""),
+])
+
+benign('B-helper-extracted-status-setter', ['C02', 'C05'], [
+    (S, "                        tx.status = TransactionStatus::Validating;\n                        return Some(Task::Validation(TxVersion::new(\n                            validation_idx,", "                        Self::mark_validating(&mut tx);\n                        return Some(Task::Validation(TxVersion::new(\n                            validation_idx,"),
+    (S, "    fn latest_unfinalized_blocker(&self, blockers: &HashSet<TxId>) -> Option<TxId> {", "    fn mark_validating(tx: &mut TxState) {\n        tx.status = TransactionStatus::Validating;\n    }\n\n    fn latest_unfinalized_blocker(&self, blockers: &HashSet<TxId>) -> Option<TxId> {"),
+])
